@@ -221,7 +221,21 @@ def validate(ctx, log, want, cfg="Server_trace.cfg", module="TraceServer", oracl
         for sig, text in oracle_fn(r, want):
             anomalies += 1
             ctx.violation(sig, "run %s: %s" % (r[0].get("id"), text), {"run": r[0].get("id"), "events": r[-60:]})
-    remaining = runs
+    # a goroutine the model does not know (no role) executing library gates cannot be explained by the specification: such a run
+    # is a violation if the oracle saw an anomaly in it (reported above), model drift otherwise; TLC is not asked about it
+    def foreign(r):
+        for x in r:
+            p = x.get("p")
+            if isinstance(p, list) and len(p) == 2 and (p[0] == 0 or p[1] == ""):
+                return x
+        return None
+    remaining = []
+    for r in runs:
+        x = foreign(r)
+        if x is None:
+            remaining.append(r)
+        elif not oracle_fn(r, want):
+            drift.append((r[0].get("id"), x, [y for y in r if y.get("seq", 0) < x.get("seq", 0)][-12:]))
     for attempt in range(6):
         if not remaining:
             break
@@ -233,6 +247,9 @@ def validate(ctx, log, want, cfg="Server_trace.cfg", module="TraceServer", oracl
             break
         m = re.search(r"REJECTED_AT\D+(\d+)", t.out)
         if not (m or t.violated):
+            if ctx.viol:
+                ctx.note("TLC could not evaluate the remaining traces (%d runs); the oracle's findings stand" % len(remaining))
+                break
             raise vlib.Inconclusive("trace validation failed:\n" + t.out[-3000:])
         pos = int(m.group(1)) if m else 1
         # locate the run
@@ -258,3 +275,28 @@ def validate(ctx, log, want, cfg="Server_trace.cfg", module="TraceServer", oracl
         remaining = remaining[bad + 1:]
     ctx.traces_validated += accepted
     return len(runs), accepted, drift
+
+
+def tls_front(ctx, binary):
+    """TlsAccept.tla histories replayed against a real server behind a TLS listener; returns (histories, steps)"""
+    deep = "" if ctx.quick else "_deep"
+    ctx.tlc("TlsAccept", "TlsAccept_mc%s.cfg" % deep, workers=4)
+    g = ctx.tlc("TlsAccept", "TlsAccept_gen%s.cfg" % deep, workers=1, count=False)
+    hist = g.printed("CASE")
+    if len(hist) < 7000:
+        raise vlib.Inconclusive("too few TLS histories: %d" % len(hist))
+    hpath, opath = os.path.join(ctx.work, "tls.ndjson"), os.path.join(ctx.work, "tls.out.ndjson")
+    vlib.write_ndjson(hpath, hist)
+    rc, out = ctx.run_driver(binary, test_run="^TestTLS$", env={"VERIF_TLS_CASES": hpath, "VERIF_OUT": opath}, timeout=1800)
+    if rc != 0 or not os.path.exists(opath):
+        raise vlib.Inconclusive("server driver (TLS) failed rc=%s\n%s" % (rc, out[-3000:]))
+    res = vlib.read_ndjson(opath)
+    summ = [x for x in res if x.get("summary")]
+    if not summ or summ[0]["histories"] != len(hist):
+        raise vlib.Inconclusive("driver replayed %s, TLC generated %d TLS histories" % (summ, len(hist)))
+    for x in res:
+        if x.get("summary"):
+            continue
+        p0 = x["problems"][0]
+        ctx.violation("tls:%s" % p0.split(":")[0], "TLS listener, clients %s, history %s: %s" % (x["c"]["kind"], [(s["op"], s["c"]) for s in x["c"]["h"]], x["problems"][:3]), x)
+    return len(hist), summ[0]["steps"]
